@@ -228,6 +228,18 @@ def replay(d):
     if kind == 'connections':
         bad = connection_defects(geo)
         return bool(bad), 'connection defects: %r' % bad[:5]
+    if kind == 'saved-names':
+        import tempfile
+        fd, fn = tempfile.mkstemp(suffix='.dat'); os.close(fd)
+        try:
+            geo.write(fn)
+            g2 = M.mulgrid(fn)
+        finally:
+            os.remove(fn)
+        a1, a2 = float(geo.area), float(sum(abs(float(shoelace(poly_of(c)))) for c in g2.columnlist))
+        lost = geo.num_columns != g2.num_columns or geo.num_nodes != g2.num_nodes or abs(a1 - a2) > 1e-6 * scale_a
+        return lost, 'edited geometry: %d columns, %d nodes, area %.10g; written and read back: %d columns, %d nodes, area %.10g' % (
+            geo.num_columns, geo.num_nodes, a1, g2.num_columns, g2.num_nodes, a2)
     if kind.startswith('layers-'):
         return replay_layers(d, kind, geo, before, after, layers0, colvol0)
     return False, 'unknown obligation kind %r' % kind
@@ -244,7 +256,7 @@ def replay_layers(d, kind, geo, before, after, old, colvol0):
         exp = 1 + sum(f if i in sel else 1 for i in range(1, len(old)))
         return len(new) != exp, '%d layers expected, %d found' % (exp, len(new))
     if kind == 'layers-atmosphere':
-        return new[0][2] != old[0][2] or abs(new[0][0] - old[0][0]) > tol, 'atmosphere layer %r -> %r' % (old[0], new[0])
+        return (new[0][2] != old[0][2] and old[0][2] not in [n[2] for n in new[1:]]) or abs(new[0][0] - old[0][0]) > tol, 'atmosphere layer %r -> %r' % (old[0], new[0])
     if kind == 'layers-names':
         return len(set(n[2] for n in new)) != len(new) or len(geo.layer) != len(new), 'layer names %r' % [n[2] for n in new]
     if kind == 'layers-chain':
